@@ -14,3 +14,5 @@ for p in "$@"; do
   printf '%s\n' "$out" | tail -2 | sed 's/^/    /'
 done
 git -C /repo worktree remove --force "$wt"
+# restore the regenerated tables (Gen/Fsm*.lean, Gen/Layout.lean) of the real repository
+[ -x /verif/tools/regen.sh ] && /verif/tools/regen.sh >/dev/null 2>&1 || true
